@@ -208,6 +208,24 @@ func (c *ctx) reqEnc(l, p, s, r []byte) []byte {
 	} else {
 		c.emit(cmd, "ok "+xb(m))
 	}
+	// law (wire format on the real encoder's bytes): four parts, each a 16-bit big-endian length and
+	// exactly that many bytes; refused exactly when a field exceeds 256 bytes
+	{
+		var want []byte
+		over := false
+		for _, f := range [][]byte{l, p, s, r} {
+			over = over || len(f) > 256
+			want = append(want, byte(len(f)>>8), byte(len(f)))
+			want = append(want, f...)
+		}
+		for _, o := range []struct {
+			b   []byte
+			err error
+		}{{out, err}, {m, merr}} {
+			good := (o.err != nil) == over && (o.err != nil || bytes.Equal(o.b, want))
+			c.emit(fmt.Sprintf("law.C13.wire_format_request lens=%d,%d,%d,%d", len(l), len(p), len(s), len(r)), tf(good))
+		}
+	}
 	if err == nil {
 		// law: round trip
 		var d sasl.Request
@@ -269,6 +287,30 @@ func (c *ctx) respEnc(ok bool, msg []byte) []byte {
 		c.emit(cmd, "err")
 	} else {
 		c.emit(cmd, "ok "+xb(m))
+	}
+	// law (wire format, stated on the real encoder's bytes): one part = a 16-bit big-endian length and
+	// exactly that many bytes, the text "OK"/"NO" + optional " " + message; refused exactly when the
+	// part does not fit a 16-bit length
+	{
+		text := "NO"
+		if ok {
+			text = "OK"
+		}
+		if len(msg) > 0 {
+			text += " " + string(msg)
+		}
+		for _, o := range []struct {
+			b   []byte
+			err error
+		}{{out, err}, {m, merr}} {
+			good := false
+			if o.err != nil {
+				good = len(text) > 65535
+			} else {
+				good = len(text) <= 65535 && len(o.b) == 2+len(text) && int(o.b[0])<<8|int(o.b[1]) == len(text) && string(o.b[2:]) == text
+			}
+			c.emit(fmt.Sprintf("law.C13.wire_format_response ok=%s msglen=%d", tf(ok), len(msg)), tf(good))
+		}
 	}
 	if err == nil && len(out)-2 <= 256 {
 		var d sasl.Response
